@@ -35,6 +35,18 @@ _BASES = {"stop": StopIteration, "exc": Exception, "base": BaseException, "runti
 _CLASSES = {"exc": Interrupt, "base": HardInterrupt}
 
 
+class CancelledWithReasons(Exception):
+    """An exception OBJECT that is falsy: it carries a list of reasons, which is empty here (ExceptionGroup-like
+    classes and exceptions with __len__/__bool__ exist in the wild).  It is an exception all the same."""
+
+    def __len__(self):
+        return 0
+
+
+_BASES["falsy"] = Exception
+_CLASSES["falsy"] = CancelledWithReasons
+
+
 def exc_class(kind):
     if kind not in _CLASSES:
         _CLASSES[kind] = type("Cancelled_" + kind, (_BASES[kind],), {})
@@ -169,6 +181,8 @@ class Runner:
         """plan: dict(mode, at, exc, poolsize, spec, sched_seed|decisions, recovery, rec_*)."""
         w = self.w
         mode = plan["mode"]
+        if mode == "rehook":
+            return self.run_rehook(plan)
         exc_cls = exc_class(plan.get("exc", "exc"))
         # shared argument objects, so that "the inputs are unchanged" can be observed
         dims = cubes.build_dims(w)
@@ -269,6 +283,67 @@ class Runner:
                             "evaluation: output%s" % (what, cubes.first_difference(self.ref, out)))
         if model.snapshot([dims, args]) != snap:
             raise Violation(PROP, "inputs-changed", self.where, "an input changed during the recovery evaluation")
+
+    def run_rehook(self, plan):
+        """Serial run in which the installed callback is exchanged WHILE calculate runs: what is installed when a
+        sub-cube starts is what gets consulted.  "disarm": the callback takes itself off the cube at its j-th
+        invocation and never raises - calculate returns the fresh result.  "arm": a harmless callback puts a raising
+        one on the cube at its j-th invocation (a cancel arriving while a sub-cube is being filled) - the next
+        sub-cube is a cancellation point.  Serial only: in pooled mode the exchange would race with other tasks."""
+        w, k, j, kind = self.w, self.k, plan["at"][0], plan["rehook"]
+        cube = cubes.build_cube(w)
+        cube.parallel = False
+        aggs = cubes.build_aggs(w)
+        exc_cls = exc_class(plan.get("exc", "exc"))
+        second = Injector(at_counts=[0], exc_cls=exc_cls)
+        state = {"calls": 0}
+
+        def first():
+            i = state["calls"]
+            state["calls"] += 1
+            if i == j:
+                cube.check_interrupt = None if kind == "disarm" else second
+
+        cube.check_interrupt = first
+        out = exc = None
+        try:
+            out = cubes.evaluate(cube, aggs)
+        except Exception as e:
+            exc = e
+        self.count("rehook_" + kind)
+        if state["calls"] != j + 1:
+            raise Violation(PROP, "callback-count", self.where,
+                            "a callback that was exchanged at its invocation %d was consulted %d times (serial, %d sub-cubes)"
+                            % (j, state["calls"], k))
+        if kind == "arm" and j < k - 1:
+            if exc is None:
+                raise Violation(PROP, "interrupt-swallowed", self.where,
+                                "a raising callback installed during sub-cube %d of %d was never honoured: calculate returned"
+                                % (j, k))
+            if not second.raised or exc is not second.raised[0]:
+                raise Violation(PROP, "wrong-exception:" + type(exc).__name__, self.where,
+                                "the callback installed during sub-cube %d raised %r but calculate raised %r"
+                                % (j, second.raised[:1], exc))
+            if second.calls != 1:
+                raise Violation(PROP, "continued-after-interrupt", self.where,
+                                "the callback installed during sub-cube %d raised at once but was consulted %d times"
+                                % (j, second.calls))
+            self.count("fault_interrupt_serial_rehooked")
+        else:
+            if exc is not None:
+                raise Violation(PROP, "raised-without-fault:" + type(exc).__name__, self.where,
+                                "the callback %s at invocation %d and never raised, but calculate raised %r"
+                                % ("removed itself" if kind == "disarm" else "installed another (never consulted)", j, exc))
+            if cubes.freeze(out) != self.ref_frozen:
+                raise Violation(PROP, "result-differs-with-callback", self.where,
+                                "with a callback exchanged at invocation %d the result differs: output%s"
+                                % (j, cubes.first_difference(self.ref, out)))
+        cube.check_interrupt = None
+        out = cubes.evaluate(cube, aggs)
+        if cubes.freeze(out) != self.ref_frozen:
+            raise Violation(PROP, "recovery-differs", self.where,
+                            "after a run whose callback was exchanged, calculate on the same objects differs from a "
+                            "fresh evaluation: output%s" % cubes.first_difference(self.ref, out))
 
     def pooled(self, plan, prefix, cube, aggs, inj):
         spec = plan[prefix + "spec"]
@@ -391,6 +466,9 @@ def plans_for(w, rng, tier, est_steps):
         # an Exception-derived class (the family is drawn per plan) and a BaseException-derived one
         plans.append({"mode": "serial", "at": [i], "exc": rng.choice(POOLED_KINDS), "recovery": "serial" if i % 2 == 0 else "pooled"})
         plans.append({"mode": "serial", "at": [i], "exc": "base", "recovery": "pooled" if i % 2 == 0 else "serial"})
+    if k >= 2:
+        plans.append({"mode": "rehook", "rehook": "disarm", "at": [rng.randrange(k)], "exc": "exc"})
+        plans.append({"mode": "rehook", "rehook": "arm", "at": [rng.randrange(k)], "exc": rng.choice(POOLED_KINDS)})
     singles = list(range(k))
     if tier == "quick" and k > 6:
         singles = sorted(rng.sample(singles, 6))
